@@ -104,6 +104,7 @@ fn render(c: &Case, ox: i32, oy: i32) -> Vec<u32> {
             dt.push_clip_rect(irect(r.0 + ox, r.1 + oy, r.2 + ox, r.3 + oy));
         }
     }
+    harmless_prelude(&mut dt, (c.w * 7 + c.h * 13 + c.mode as i32 * 5 + (c.alpha.to_bits() >> 7) as i32) as u32);
     let opts = DrawOptions { blend_mode: BLEND_MODES[c.mode as usize], alpha: c.alpha, antialias: AntialiasMode::Gray };
     match &c.route {
         Route::Mask { x, y, mask } => {
